@@ -17,7 +17,7 @@ POOL = [0, 1, -1, 2, 3, 7, 10, 2 ** 53 - 1, 2 ** 53, 2 ** 53 + 1, 2 ** 53 + 2, -
         0.0, -0.0, 1.0, -1.0, 2.0, 0.5, 0.25, 1.5, 2.5, 0.1, 0.3, 0.2, 1.1, 7.5, float(2 ** 53), float(2 ** 53) + 2.0,
         9007199254740993.0, 1e20, 1e22, 1e23, 1e300, -1e300, 1e308, FMAX, -FMAX, 5e-324, -5e-324, 1e-320,
         2.0 ** -1022, 2.0 ** -1074, 2.0 ** -30, 2.0 ** 40, 2.0 ** 1023, 3.0 * 2.0 ** -1074, 1e-7, 123456789.125,
-        2.0 ** 51 + 0.5, 2.0 ** 52 + 1.0, 2.0 ** 45 + 0.015625, 4.0, -4.0, 6]
+        2.0 ** 51 + 0.5, 2.0 ** 52 + 1.0, 2.0 ** 45 + 0.015625, 4.0, -4.0, 6, 3.0, 7.0, 10.0, 2.0 ** 60, 2 ** 60]
 
 big_ints = st.one_of(st.integers(-10 ** 6, 10 ** 6), st.integers(2 ** 52, 2 ** 54), st.integers(2 ** 62, 2 ** 65),
                      st.integers(10 ** 300, 10 ** 320), st.integers(10 ** 395, 10 ** 405),
@@ -258,6 +258,14 @@ class C09(Prop):
                     run_case(self, {"draft": d, "keyword": kw, "instance": x, "bound": b, "flag": flag,
                                     "class": "pool"}, acc, keep_sample=False)
                     n += 1
+                if kw in ("multipleOf", "divisibleBy") and d in (3, 7):
+                    # once more in the opposite order (floats before the integers equal to them): an answer must not
+                    # depend on which of two numerically equal operands of different type was asked about first
+                    for x, b in itertools.product(reversed(POOL), reversed(POOL)):
+                        if b > 0:
+                            run_case(self, {"draft": d, "keyword": kw, "instance": x, "bound": b, "flag": None,
+                                            "class": "pool"}, acc, keep_sample=False)
+                            n += 1
         acc.extra["pool_product_cases"] = n
         acc.extra["pool_size"] = len(POOL)
 
